@@ -162,7 +162,7 @@ def cfg_url(maxlen, alphabet, export, checkprop, defects, inv=False):
 
 
 def cfg_san(mode, maxlen, export, checkprop, defects):
-    return ("INIT Init\nNEXT Next\nCHECK_DEADLOCK FALSE\nINVARIANT ThmSafe\nINVARIANT ThmInert\nINVARIANT ThmExplained\n"
+    return ("INIT Init\nNEXT Next\nCHECK_DEADLOCK FALSE\nINVARIANT ThmSafe\nINVARIANT ThmInert\nINVARIANT ThmIndependent\nINVARIANT ThmExplained\n"
             "INVARIANT ThmCssStable\nINVARIANT ThmExport\n"
             'CONSTANT Mode = "%s"\nCONSTANT MaxLen = %d\nCONSTANT Export = %s\nCONSTANT CheckProperty = %s\n'
             "CONSTANT KnownDefects = {%s}\n"
